@@ -254,10 +254,16 @@ Record reqobs := {
 Record pulse_obs := { p_when : option Z; p_now : Z; p_thr : Z; p_status : N; p_out : pulse_out }.
 Record sl_obs := { so_rstatus : N; so_ready : sready; so_hstatus : N; so_herrs : list (N * N) }.
 
+(** a Response of Check.CheckReady / CheckHealth obtained after [t_pos] operations, kept by the
+    caller while further evaluations and operations happen, and only then read: it must still
+    describe the evaluation it came from *)
+Record retobs := { t_ready : bool; t_pos : nat; t_status : N; t_checks : list chk }.
+
 Inductive case :=
 | CHist (ops : list op) (reqs : list reqobs)
 | CPulse (probes : list pulse_obs)
-| CStartup (steps : list (sop * sl_obs)).
+| CStartup (steps : list (sop * sl_obs))
+| CRetained (ops : list op) (kept : list retobs).
 
 Definition resp_eqb (a b : response) : bool :=
   (r_code a =? r_code b) && (r_status a =? r_status b) && (r_message a =? r_message b)
@@ -283,6 +289,18 @@ Fixpoint sl_steps (s : slog) (done : list sop) (steps : list (sop * sl_obs)) : b
     let (a, b) := sl_steps s' done' t in (same && a, ok && b)
   end.
 
+Definition ret_same (ops : list op) (t : retobs) : bool :=
+  let (ov, res) := evaluate (checks_of (t_ready t) (state_at ops (t_pos t))) in
+  (t_status t =? ov) && list_eqb chk_eqb (t_checks t) res.
+(** independent of evaluate: the aggregate fails iff some check does not pass, and the listed
+    checks are exactly the registered ones with their current results *)
+Definition ret_ok (ops : list op) (t : retobs) : bool :=
+  let l := checks_of (t_ready t) (state_at ops (t_pos t)) in
+  (t_status t =? (if all_pass l then ST_PASS else ST_FAIL))
+  && Nat.eqb (length (t_checks t)) (length l)
+  && list_eqb N.eqb (nsort (map k_name (t_checks t))) (nsort (map k_name l))
+  && forallb (fun c => existsb (chk_eqb c) l) (t_checks t).
+
 Definition check (c : case) : verdict :=
   match c with
   | CHist ops reqs => judge (forallb (req_same ops) reqs) (forallb (req_ok ops) reqs)
@@ -291,4 +309,5 @@ Definition check (c : case) : verdict :=
                              pulse_eqb (p_out p) o && (p_status p =? pulse_status o)) probes)
           (forallb (fun p => Bool.eqb (p_status p =? ST_FAIL) (pulse_should_fail (p_when p) (p_now p) (p_thr p))) probes)
   | CStartup steps => let (a, b) := sl_steps sl_init [] steps in judge a b
+  | CRetained ops kept => judge (forallb (ret_same ops) kept) (forallb (ret_ok ops) kept)
   end.
